@@ -169,8 +169,12 @@ impl Tr {
             Expr::Cast(c) => {
                 // only widening / identity casts between unsigned types are accepted
                 let ty = c.ty.to_token_stream().to_string();
-                match ty.as_str() {
-                    "u32" | "u64" | "usize" | "u16" | "Uint" | "SequenceNo" => self.expr(&c.expr),
+                // a cast to a type narrower than the values of the function being translated truncates
+                match (ty.as_str(), self.width) {
+                    ("u16", Width::W16) => self.expr(&c.expr),
+                    ("u16", _) => Ok(format!("({} % 65536)", self.expr(&c.expr)?)),
+                    ("u32", Width::Usize) | ("Uint", Width::Usize) | ("SequenceNo", Width::Usize) => Ok(format!("({} % 4294967296)", self.expr(&c.expr)?)),
+                    ("u32", _) | ("Uint", _) | ("SequenceNo", _) | ("u64", _) | ("usize", _) => self.expr(&c.expr),
                     _ => err(format!("unsupported cast to {}", ty)),
                 }
             }
